@@ -33,6 +33,48 @@ def is_leaf(st):
     return st['phase'] == 'live' and not st['R'].get('known', False)
 
 
+class _Shadow:
+    """context that only records whether a violation was raised (canary)"""
+
+    def __init__(self, ctx):
+        self.seed = ctx.seed
+        self.tier = ctx.tier
+        self.hits = []
+
+    def violation(self, sig, detail):
+        self.hits.append(sig)
+        return True
+
+    def case(self, *a, **k):
+        pass
+
+
+def canary(ctx, hist, spec, handlers):
+    """corrupt one predicted amplitude of a behaviour: the replay has to reject it"""
+    import copy
+    h = copy.deepcopy(hist)
+    for st in h:
+        val = st['o']['psi']['val']
+        if val and st['o']['mode'] in ('raw', 'unit'):
+            k = max(range(len(val)), key=lambda j: abs(val[j][0]) + abs(val[j][1]))
+            val[k] = [val[k][0] + 1, val[k][1] - 2] if st['o']['mode'] == 'raw' else [-3 * val[k][0] - 1, val[k][1] + 5]
+            break
+    else:
+        return False
+    sh = _Shadow(ctx)
+    rp = hm.Replay(sh, spec, handlers, 'canary')
+    try:
+        rp.run(h)
+    except core.MachineryError:
+        raise
+    except Exception:
+        pass
+    if not sh.hits:
+        raise core.MachineryError('canary: a corrupted predicted state was accepted by the replay (%s)' % spec)
+    ctx.notes['canary_corrupted_prediction_rejected'] = ctx.notes.get('canary_corrupted_prediction_rejected', 0) + 1
+    return True
+
+
 def mc_and_replay(ctx, name, c, spec=SPEC, handlers=None, leaf=is_leaf, sample_every=200, workers=8):
     handlers = handlers or hm.BASE_HANDLERS
     # recursive sums over a few hundred tensor entries: give the TLC worker threads a deeper stack
@@ -57,6 +99,8 @@ def mc_and_replay(ctx, name, c, spec=SPEC, handlers=None, leaf=is_leaf, sample_e
                 rp.violation(st['hist'][rp.step]['l']['op'], 'exception',
                              dict(error=repr(e), tb=traceback.format_exc()[-1500:]), error=type(e).__name__)
             ctx.trace_ok(1)
+            if n in (3, 40):
+                canary(ctx, st['hist'], spec, handlers)
             if n % sample_every == 1:
                 ctx.sample(dict(spec=spec, run=name, behaviour=[tlaval.to_jsonable(x['l'].get('op')) for x in st['hist']],
                                 last=tlaval.to_jsonable(st['last'])))
@@ -77,7 +121,7 @@ def check(ctx):
     t0 = time.time()
     acts = {'convert', 'setB', 'observe', 'canonical'}
     # wide: every constructor route, one state-changing step
-    n1 = mc_and_replay(ctx, 'wide', cfg(seed, 151 if quick else 5, 4, 1, ALL_CTORS, acts))
+    n1 = mc_and_replay(ctx, 'wide', cfg(seed, 151 if quick else 19, 4, 1, ALL_CTORS, acts))
     # deep: all sequences of <= 3 form conversions on raw-tensor MPS
     n2 = mc_and_replay(ctx, 'deep', cfg(seed, 251 if quick else 31, 3, 3, {'new'}, {'convert', 'observe'}))
     ctx.notes['behaviours'] = dict(wide=n1, deep=n2)
